@@ -610,6 +610,37 @@ func c28DesignedPairs() []c28Pair {
 	special("template-instance", "%flag F;\nstart_ : e<+F> u @ ;\ne<F> : [F] t | u t ;\n@ : u t t ;", "eF", "zzq9")
 	special("template-instance", "%flag F;\nstart_ : e<+F> u @ ;\ne<F> : [F] t | u t ;\n@ : u t t ;", "EF", "zzq9")
 	special("terminal-list", "start_ : t+ u @ ;\n@ : u t ;", "TList", "zzq9")
+
+	// terminal vs compiler-generated nonterminal: the UpperCase terminal ID can only meet a
+	// CamelCase ID without lower-case letters, i.e. one-letter (letter+digit) nonterminals with
+	// such flags, an upper-case optional suffix, or the "$n" of mid-rule actions ('$' -> '_')
+	termGen := func(label, opts, body, term, fresh string) {
+		mk := func(n string) string {
+			return "language g(go);\n\n" + opts + "\n:: lexer\n\nt: /t/\nu: /u/\n" + n + ": /w/\n\n:: parser\n\n%input start_;\n\n" + strings.ReplaceAll(body, "@", n) + "\n"
+		}
+		out = append(out, c28Pair{label: "term+generated/" + label, text: mk(term), ctrl: mk(fresh), nameA: "(generated)", nameB: term, special: true})
+	}
+	for _, nt := range []string{"q", "z", "k1"} {
+		for _, fl := range []string{"B", "F", "X2"} {
+			low := strings.ToLower(nt + fl)
+			for _, term := range []string{low, strings.ToLower(nt) + "-" + strings.ToLower(fl), "'" + low + "'", strings.ToUpper(low), "\"" + low + "\""} {
+				termGen("template-instance", "", "%flag "+fl+";\nstart_ : "+nt+"<+"+fl+"> @ | "+nt+"<~"+fl+"> u ;\n"+nt+"<"+fl+"> : ["+fl+"] t | [!"+fl+"] u t ;", term, "zzq9")
+				termGen("template-instance-inline-flag", "", "start_ : "+nt+"<+"+fl+"> @ | "+nt+"<~"+fl+"> u ;\n"+nt+"<flag "+fl+"> : ["+fl+"] t | [!"+fl+"] u t ;", term, "zzq9")
+			}
+		}
+		for _, term := range []string{nt + "_1", strings.ToUpper(nt) + "_1", "'" + nt + "_1'", nt + "-_1"} {
+			termGen("mid-rule-action", "", "start_ : "+nt+" ;\n"+nt+" : t { act() } @ ;", term, "zzq9")
+		}
+		for _, term := range []string{nt + "_2", strings.ToUpper(nt) + "_2"} {
+			termGen("mid-rule-action", "", "start_ : "+nt+" ;\n"+nt+" : t { a1() } u { a2() } @ ;", term, "zzq9")
+		}
+		for _, term := range []string{nt + "x", nt + "-x", "'" + nt + "x'", strings.ToUpper(nt) + "X"} {
+			termGen("opt-suffix-upper", "optInstantiationSuffix = \"X\"\n", "start_ : "+nt+"X @ ;\n"+nt+" : t ;", term, "zzq9")
+		}
+	}
+	termGen("list", "", "start_ : q+ @ ;\nq : t ;", "q_list", "zzq9")
+	termGen("list", "", "start_ : q+ @ ;\nq : t ;", "QLIST", "zzq9")
+	termGen("opt-suffix", "", "start_ : qopt @ ;\nq : t ;", "QOPT", "zzq9")
 	return out
 }
 
@@ -683,9 +714,17 @@ func c28RunPair(c *fw.Ctx, p c28Pair) {
 	files := map[string]string{"grammar.tm": p.text, "control.tm": p.ctrl}
 	if err == nil && p.special {
 		// whether the generated name really collides is visible in the compiled grammar
-		if c28Syms(c, g, p.text) {
-			c.Count("special_pair_precondition_not_met", 1)
+		seen := map[string]string{}
+		for _, s := range g.Syms {
+			if prev, dup := seen[s.ID]; dup && s.ID != "" {
+				c.Violate("collision/undetected/"+p.label, fmt.Sprintf("symbols %q and %q both get identifier %q, yet the grammar compiles without any error (the control grammar with %q renamed compiles too)", prev, s.Name, s.ID, p.nameB), files)
+				return
+			}
+			seen[s.ID] = s.Name
 		}
+		c28Syms(c, g, p.text)
+		c.Count("special_pair_precondition_not_met", 1)
+		c.Count("precondition_not_met/"+p.label, 1)
 		return
 	}
 	if err == nil {
@@ -897,6 +936,7 @@ func init() {
 		CPUBudget:     300,
 		MinNontrivial: func(tier string) int { return 20000 },
 		RequiredCounters: []string{"names_bare", "names_quoted", "names_dquoted", "candidates_not_admissible", "identifiers_checked", "enumerated_strings", "random_names",
-			"single_compiled", "sym_ids_checked", "token_go_files_parsed", "token_ts_files_scanned", "token_constants_matched", "designed_pairs", "collisions_reported_same_id", "multi_compiled"},
+			"single_compiled", "sym_ids_checked", "token_go_files_parsed", "token_ts_files_scanned", "token_constants_matched", "designed_pairs", "collisions_reported_same_id", "multi_compiled",
+			"pairs/term+generated/template-instance", "pairs/term+generated/template-instance-inline-flag", "pairs/term+generated/opt-suffix-upper", "pairs/nonterm+generated/list", "pairs/nonterm+generated/opt-suffix", "pairs/nonterm+generated/template-instance"},
 	})
 }
